@@ -15,7 +15,7 @@ from .report import (RULES, Collector, Ob, OK, BENIGN, VIOLATED, WITNESS_FILE, k
 from .props import PROPS
 from .witness import WITNESS_SRC
 
-RULE_MODULES = ["eff", "core", "fresh", "protocol", "adjoint", "solver", "lints", "opt", "fem", "eig", "io", "extra"]
+RULE_MODULES = ["eff", "core", "fresh", "protocol", "adjoint", "solver", "lints", "opt", "fem", "eig", "io", "extra", "round3"]
 
 
 def load_rules():
